@@ -54,6 +54,11 @@ PROPS = {
         engines=[('broker', dict(prop='C15'))],
         trusted=['asyncio transport/loop contract as implemented by harness FakeTransport/VirtualLoop (DESIGN.md 3c)', 'that asyncio calls pause_writing/resume_writing at the high/low-water marks is library behaviour'],
     ),
+    'C19': dict(
+        module='Hpfeeds.Props.C19', file='Hpfeeds/Props/C19.lean',
+        engines=[('broker', dict(prop='C19'))],
+        trusted=['asyncio transport/loop contract as implemented by harness FakeTransport/VirtualLoop (DESIGN.md 3c)', 'prometheus_client arithmetic (inc/dec/labels) is modelled by integer maps; samples are read through REGISTRY.get_sample_value / collect()'],
+    ),
     'C05': dict(
         module='Hpfeeds.Props.C05', file='Hpfeeds/Props/C05.lean',
         engines=[('codec', dict(sections=['roundtrip', 'readers']))],
